@@ -27,8 +27,10 @@ class PolyplyParser(ITPDirector):
     def __init__(self, force_field):
         super().__init__(force_field)
         self.citations = set()
-        # definitions read from earlier files are left as they are
-        self._old_blocks = {id(block) for block in force_field.blocks.values()}
+        # definitions read from earlier files are left as they are; the blocks are
+        # kept referenced so that the identity of a replaced block cannot be reused
+        self._old_block_refs = list(force_field.blocks.values())
+        self._old_blocks = {id(block) for block in self._old_block_refs}
         self._n_old_links = len(force_field.links)
 
     @SectionLineParser.section_parser('moleculetype', 'citation')
